@@ -72,6 +72,15 @@ def struct_eq(ev, st, a, b, depth=0):
         return conj([struct_eq(ev, st, x, y, depth + 1) for x, y in zip(a[4], b[4])])
     if a[0] == "tuple" and b[0] == "tuple":
         return conj([struct_eq(ev, st, x, y, depth + 1) for x, y in zip(a[1], b[1])])
+    for (c, o) in ((a, b), (b, a)):
+        # constant bytes against a sub-slice of known bounds: equal lengths, then element by element
+        if c[0] in ("bytes", "array") and o[0] == "app" and o[1] == "subslice" and o[2][1][0] == "int" and o[2][2][0] == "int":
+            base, lo, hi = o[2]
+            if hi[1] - lo[1] != len(c[1]):
+                return FALSE
+            from mireval import index_term
+            elems = [mk_int(x, "u8") if isinstance(x, int) else x for x in c[1]]
+            return conj([struct_eq(ev, st, e, index_term(base, mk_int(lo[1] + k, "usize")), depth + 1) for k, e in enumerate(elems)])
     if b[0] == "adt" and a[0] != "adt":
         a, b = b, a
     if a[0] == "adt":
@@ -1050,7 +1059,7 @@ def m_search(ci):
         arg = ("ref", ("val", x, ()), False) if which == "find" else x     # find's predicate takes &Item
         n0 = len(ci.st.trace)
         b = apply_closure(ci, pred, [arg])
-        if b is None or len(ci.st.trace) != n0:
+        if b is None or any(e[0] in ("store", "call", "write", "vecop", "fill", "panic", "sum") for e in ci.st.trace[n0:]):
             return None         # only pure predicates: all of them are evaluated up front
         conds.append(b)
     branches = []
